@@ -226,6 +226,10 @@ let () =
       | "init", "init" ->
           count "inits";
           bs := run_op f !bs (OInit (nat_of_int (int_of_sx (List.nth (args o) 0))));
+          (* a re-initialised branch is fresh: it has consumed nothing, any commit must be accepted as its first
+             (C20_initialize_never_refuses; before 3598ee8 the previous commit survived Initialize, finding F24) *)
+          let bi = int_of_sx (List.nth (args o) 0) in
+          last := List.mapi (fun i x -> if i = bi then None else x) !last;
           compare_snapshot here (field "all" st)
       | "fork", "fork" ->
           count "forks";
